@@ -393,6 +393,20 @@ def build_container(case):
     idx = None if labels is None else pd.Index([V.decode(l) for l in labels][: len(vals)], dtype=object)
     if idx is not None and len(idx) != len(vals):
         idx = None
+    if phys == "category":
+        # categorical data that still declares a category no element carries (e.g. after rows were filtered out)
+        nn = [v for v in vals if not V.is_null(V.norm(v))]
+        cats = []
+        for v in nn:
+            if not any(type(c) is type(v) and c == v for c in cats):
+                cats.append(v)
+        try:
+            cat = pd.Categorical(vals, categories=cats + [case.get("unused_category", "zz_unused")])
+            ser = pd.Series(cat, index=idx, name=name)
+        except (TypeError, ValueError):
+            ser = pd.Series(vals, dtype=object, index=idx, name=name)
+        elems = list(ser.astype(object))
+        return ser, elems, list(ser.index)
     ser = pd.Series(vals, dtype=object, index=idx, name=name) if phys == "object" else \
         pd.Series(vals, index=idx, name=name)
     elems = list(ser.astype(object))
